@@ -81,13 +81,16 @@ def corr_doc(ctype, refs, op="gte", count=2, timespan="5m", group_by=("user",), 
 PIPES = {
     "none": None,
     "map": {"name": "map", "priority": 1, "transformations": [{"id": "m", "type": "field_name_mapping", "mapping": {"user": "usr", "host": "hst", "u1": "user_one", "f1": "g1", "bytes": "byt"}}]},
+    # the same mapping bound to the log source of the referenced rules: applies to a correlation rule iff a (transitively) referenced rule matches
+    "map_ls": {"name": "mapls", "priority": 1, "transformations": [{"id": "m", "type": "field_name_mapping", "mapping": {"user": "usr", "host": "hst", "u1": "user_one", "f1": "g1", "bytes": "byt"},
+                                                                     "rule_conditions": [{"type": "logsource", "category": "c"}]}]},
     "prefix": {"name": "pre", "priority": 1, "transformations": [{"id": "p", "type": "field_name_prefix", "prefix": "ev."}]},
     "post": {"name": "post", "priority": 1, "postprocessing": [{"id": "emb", "type": "embed", "prefix": "<<", "suffix": ">>"}]},
 }
 
 
 def map_field(pipe, f):
-    if pipe == "map":
+    if pipe in ("map", "map_ls"):
         return {"user": "usr", "host": "hst", "u1": "user_one", "f1": "g1", "bytes": "byt"}.get(f, f)
     if pipe == "prefix":
         return "ev." + f
@@ -320,9 +323,13 @@ def space_ii():
     # nested correlation as referenced rule
     inner = corr_doc("event_count", ["rule1"])
     inner.update(title="inner", id=rid(901), name="inner_corr")
-    for t in ("temporal", "event_count"):
-        for pipe in ("none", "map"):
-            yield [plain(1), plain(2), inner], corr_doc(t, ["inner_corr", "rule2"]), Kc(typing=True), pipe, f"nested/{t}/{pipe}"
+    inner2 = corr_doc("event_count", ["rule2"])
+    inner2.update(title="inner2", id=rid(902), name="inner_corr2")
+    for t in ("temporal", "event_count", "value_count"):
+        for pipe in ("none", "map", "map_ls", "prefix"):
+            yield [plain(1), plain(2), inner], corr_doc(t, ["inner_corr", "rule2"], group_by=("user", "host")), Kc(typing=True), pipe, f"nested/{t}/{pipe}"
+            # chain: the outer rule references correlation rules only
+            yield [plain(1), plain(2), inner, inner2], corr_doc(t, ["inner_corr", "inner_corr2"], group_by=("user", "host"), field="bytes"), Kc(typing=True), pipe, f"chain/{t}/{pipe}"
 
 
 def space_iii(tier):
